@@ -334,7 +334,7 @@ def optrig_n10(st, op):
 
 
 def optrig_n11(st, op):
-    """sparse region READ through a key list that repeats an index"""
+    """(repaired) sparse region READ through a key list that repeats an index"""
     return op[0] == "get" and key_repeats(op[1])
 
 
@@ -349,7 +349,7 @@ def optrig_n13(st, op):
 
 
 def optrig_n15(st, op):
-    """sparse region assignment of a sptensor through a key list that repeats an index where the value that must win (the
+    """(repaired) sparse region assignment of a sptensor through a key list that repeats an index where the value that must win (the
     last one addressed to a position, numpy's rule on the dense side) is not the last STORED value of the operand: it is a
     zero (not stored in the operand) after a nonzero, or the operand's stored order is not its position order"""
     if not (_is_set(op, ("region",)) and op[2][0] == "values" and key_repeats(op[1])):
@@ -375,7 +375,7 @@ ALLCLASS = {"C04-N07": ("sparse", optrig_n07), "C04-N05": ("sparse", optrig_n05)
             "A-15": ("dense", optrig_a15), "A-16": ("dense", optrig_a16), "A-17": ("dense", optrig_a17),
             "C04-N10": ("sparse", optrig_n10), "C04-N11": ("sparse", optrig_n11), "C04-N12": ("sparse", optrig_n12),
             "C04-N13": ("sparse", optrig_n13), "C04-N15": ("sparse", optrig_n15)}
-OPEN_IDS = ("A-16", "C04-N04", "C04-N11", "C04-N15")
+OPEN_IDS = ("A-16", "C04-N04")        # wave 4: C04-N11 / N14 / N15 are repaired in /repo (1fdba16, 8f8b86e, 274a39e): ordinary inputs
 OPTRIG = {fid: ALLCLASS[fid] for fid in OPEN_IDS}
 FIXED_CLASSES = {fid: v for fid, v in ALLCLASS.items() if fid not in OPEN_IDS}
 
